@@ -346,3 +346,48 @@ impl ctap1::Authenticator for FullAuthProbe {
         Err(ctap1::Error::from(0x6985u16))
     }
 }
+
+
+/// A whole SESSION: several exchanges over ONE real transport buffer object that is reused from
+/// exchange to exchange (the behaviours come from TLC's simulation of the session machine).
+fn run_session<const N: usize>(steps: &[Value]) -> R<Vec<Value>> {
+    let mut buffer = heapless::Vec::<u8, N>::new();
+    let mut out = vec![];
+    for st in steps {
+        let wire = get_bytes(field(st, "wire")?)?;
+        let script = field(st, "script")?;
+        let fail = if get_bool(field(script, "ok")?)? { None } else { Some(field(script, "err")?.as_u64().ok_or("err")? as u16) };
+        let has_lb = get_bool(field(st, "hasLb")?)?;
+        let d = crate::ops::decode2_once(&wire);
+        let req_obs = json!({"ok": d["ok"], "status": d["status"], "cmd": d["cmd"], "v": d["v"], "code": d["code"]});
+        let mut calls: Vec<Value> = vec![];
+        match ctap2::Request::deserialize(&wire) {
+            Err(e) => { buffer.clear(); buffer.push(e as u8).ok(); }
+            Ok(req) => {
+                let (log, res) = if has_lb {
+                    let mut a = FullAuth(Log { calls: vec![], fail });
+                    let r = ctap2::Authenticator::call_ctap2(&mut a, &req);
+                    (a.0, r)
+                } else {
+                    let mut a = NoLbAuth(Log { calls: vec![], fail });
+                    let r = ctap2::Authenticator::call_ctap2(&mut a, &req);
+                    (a.0, r)
+                };
+                calls = log.calls.iter().map(|c| json!(c.0)).collect();
+                match res {
+                    Ok(resp) => resp.serialize(&mut buffer),
+                    Err(e) => { buffer.clear(); buffer.push(e as u8).ok(); }
+                }
+            }
+        }
+        out.push(json!({"req": req_obs, "calls": calls, "buf": proj::bytes(&buffer)}));
+    }
+    Ok(out)
+}
+
+pub fn session(inp: &Value) -> R<Value> {
+    let cap = field(inp, "cap")?.as_u64().ok_or("cap")? as usize;
+    let steps = field(inp, "steps")?.as_array().ok_or("steps")?.clone();
+    let res = crate::with_cap!(cap, run_session, &steps).ok_or_else(|| format!("capacity {} is not instantiated", cap))??;
+    Ok(json!({"steps": res}))
+}
